@@ -521,16 +521,6 @@ class EventBus:
                 event.event_parent_id = current_event.event_id
                 event._event_parent = current_event  # pyright: ignore[reportPrivateUsage]
 
-        # Track child events - if we're inside a handler, add this event to the handler's event_children list
-        # Only track if this is a NEW event (not forwarding an existing event)
-        current_handler_id = _current_handler_id_context.get()
-        if current_handler_id is not None and inside_handler_context.get():
-            current_event = _current_event_context.get()
-            if current_event is not None and current_handler_id in current_event.event_results:
-                # Only add as child if it's a different event (not forwarding the same event)
-                if event.event_id != current_event.event_id:
-                    current_event.event_results[current_handler_id].event_children.append(event)
-
         # Add this EventBus to the event_path if not already there
         if self.name not in event.event_path:
             # preserve identity of the original object instead of creating a new one, so that the original object remains awaitable to get the result
@@ -571,6 +561,17 @@ class EventBus:
                 self.event_history[event.event_id] = event
                 # The event is not complete before this bus has processed it too
                 event._event_pending_bus_count += 1  # pyright: ignore[reportPrivateUsage]
+
+                # Track child events - if we're inside a handler, add this event to the handler's event_children list
+                # Only track if this is a NEW event (not forwarding an existing event), and only once it really is
+                # accepted: a rejected dispatch must not leave a child behind that keeps its parent from completing
+                current_handler_id = _current_handler_id_context.get()
+                if current_handler_id is not None and inside_handler_context.get():
+                    current_event = _current_event_context.get()
+                    if current_event is not None and current_handler_id in current_event.event_results:
+                        # Only add as child if it's a different event (not forwarding the same event)
+                        if event.event_id != current_event.event_id:
+                            current_event.event_results[current_handler_id].event_children.append(event)
                 logger.info(
                     f'🗣️ {self}.dispatch({event.event_type}) ➡️ {event.event_type}#{event.event_id[-4:]} (#{self.event_queue.qsize()} {event.event_status})'
                 )
